@@ -559,6 +559,8 @@ class Rooms(Combinator[RoomsType]):
     ) -> Optional[Tuple[int, List[RoomsType]]]:
         height = env.height
         width = env.width
+        if height <= 0 or width <= 0:
+            raise ValueError("the board must have positive height and width")
         if idx == len(data) and height * width > 1:
             # a 1x1 board has no borders, hence an empty encoding
             raise ValueError("index out of bounds")
